@@ -646,7 +646,12 @@ class EmissionMonitor(Monitor):
 
     def before_send(self, ep, t):
         loss = ep.conn._loss
-        self.flight_room[ep.name] = loss.congestion_window - loss.bytes_in_flight
+        room = loss.congestion_window - loss.bytes_in_flight
+        if ep.conn._probe_pending and room < ep.conn._max_datagram_size:
+            # a pending probe is allowed one full datagram whatever the congestion window says (RFC 9002 7.5):
+            # a short Initial datagram sent as a probe is *not* explained by the window
+            room = ep.conn._max_datagram_size
+        self.flight_room[ep.name] = room
         self.batch_bytes[ep.name] = 0
 
     def on_deliver(self, ep, rec, from_addr, t, altered=False):
